@@ -218,8 +218,11 @@ Go(st, ex, pos) == [st |-> st, r |-> 0, ex |-> ex, pos |-> pos]
 
 ValidBits(len, widx) == IF widx * W + W <= len THEN W ELSE len - widx * W
 
+\* ---- the arms (what each match arm does) ----
 ScanWord_PastLen(m, len, c) == Done(None)
-ScanWord_Found(m, len, c, mb) == Done((c.pos \div W) * W + mb)
+ScanWord_Found(m, len, c) ==
+  LET widx == c.pos \div W
+  IN Done(widx * W + FindCloseInWordFast(Word(m, widx), c.pos % W, c.ex, ValidBits(len, widx)))
 ScanWord_NextWord(m, len, c) ==
   LET widx == c.pos \div W
       bit == c.pos % W
@@ -227,21 +230,9 @@ ScanWord_NextWord(m, len, c) ==
       ones == CountOnes(SubSeq(Word(m, widx), bit + 1, valid))
   IN Go("FromL0", c.ex + 2 * ones - (valid - bit), (widx + 1) * W)
 
-ScanWordArm(m, len, c) ==
-  IF c.pos >= len THEN ScanWord_PastLen(m, len, c)
-  ELSE LET widx == c.pos \div W
-           mb == FindCloseInWordFast(Word(m, widx), c.pos % W, c.ex, ValidBits(len, widx))
-       IN IF mb >= 0 THEN ScanWord_Found(m, len, c, mb) ELSE ScanWord_NextWord(m, len, c)
-
 CheckL0_PastIndex(m, len, c) == Done(None)
 CheckL0_Descend(m, len, c) == Go("ScanWord", c.ex, c.pos)
 CheckL0_SkipWord(m, len, c) == Go("FromL0", c.ex + ML0(m, len, c.pos \div W)[2], c.pos + W)
-
-CheckL0Arm(m, len, c) ==
-  LET widx == c.pos \div W
-  IN IF widx >= NumL0(m, len) THEN CheckL0_PastIndex(m, len, c)
-     ELSE IF c.ex + ML0(m, len, widx)[1] <= 0 THEN CheckL0_Descend(m, len, c)
-     ELSE CheckL0_SkipWord(m, len, c)
 
 CheckL1_PastIndex(m, len, c) == Done(None)
 CheckL1_Descend(m, len, c) == Go("CheckL0", c.ex, c.pos)
@@ -249,66 +240,111 @@ CheckL1_CloseHere(m, len, c) == Done(c.pos)     \* `is_close(pos) && excess <= 1
 CheckL1_SkipBlock(m, len, c) == Go("FromL1", c.ex + ML1(m, len, c.pos \div L1BITS)[2], c.pos + L1BITS)
 CheckL1_PastLen(m, len, c) == Done(None)
 
-CheckL1Arm(m, len, c) ==
-  LET i1 == c.pos \div L1BITS
-  IN IF i1 >= NumL1(m, len) THEN CheckL1_PastIndex(m, len, c)
-     ELSE IF c.ex + ML1(m, len, i1)[1] <= 0 THEN CheckL1_Descend(m, len, c)
-     ELSE IF c.pos < len
-          THEN IF IIsClose(m, len, c.pos) /\ c.ex <= 1 THEN CheckL1_CloseHere(m, len, c)
-               ELSE CheckL1_SkipBlock(m, len, c)
-     ELSE CheckL1_PastLen(m, len, c)
-
 CheckL2_PastIndex(m, len, c) == Done(None)
 CheckL2_Descend(m, len, c) == Go("CheckL1", c.ex, c.pos)
 CheckL2_CloseHere(m, len, c) == Done(c.pos)     \* dead arm
 CheckL2_SkipBlock(m, len, c) == Go("FromL2", c.ex + ML2(m, len, c.pos \div L2BITS)[2], c.pos + L2BITS)
 CheckL2_PastLen(m, len, c) == Done(None)
 
-CheckL2Arm(m, len, c) ==
-  LET i2 == c.pos \div L2BITS
-  IN IF i2 >= NumL2(m, len) THEN CheckL2_PastIndex(m, len, c)
-     ELSE IF c.ex + ML2(m, len, i2)[1] <= 0 THEN CheckL2_Descend(m, len, c)
-     ELSE IF c.pos < len
-          THEN IF IIsClose(m, len, c.pos) /\ c.ex <= 1 THEN CheckL2_CloseHere(m, len, c)
-               ELSE CheckL2_SkipBlock(m, len, c)
-     ELSE CheckL2_PastLen(m, len, c)
-
 FromL0_WordAligned(m, len, c) == Go("FromL1", c.ex, c.pos)
 FromL0_InsideWord(m, len, c) == Go("ScanWord", c.ex, c.pos)
 FromL0_PastLen(m, len, c) == Done(None)
-FromL0Arm(m, len, c) ==
-  IF c.pos % W = 0 THEN FromL0_WordAligned(m, len, c)
-  ELSE IF c.pos < len THEN FromL0_InsideWord(m, len, c)
-  ELSE FromL0_PastLen(m, len, c)
 
 FromL1_BlockAligned(m, len, c) == Go("FromL2", c.ex, c.pos)
 FromL1_BlockAlignedPastLen(m, len, c) == Done(None)
 FromL1_InsideBlock(m, len, c) == Go("CheckL0", c.ex, c.pos)
 FromL1_PastLen(m, len, c) == Done(None)
-FromL1Arm(m, len, c) ==
-  IF c.pos % L1BITS = 0
-  THEN IF c.pos < len THEN FromL1_BlockAligned(m, len, c) ELSE FromL1_BlockAlignedPastLen(m, len, c)
-  ELSE IF c.pos < len THEN FromL1_InsideBlock(m, len, c)
-  ELSE FromL1_PastLen(m, len, c)
 
 FromL2_BlockAligned(m, len, c) == Go("CheckL2", c.ex, c.pos)
 FromL2_BlockAlignedPastLen(m, len, c) == Done(None)
 FromL2_InsideBlock(m, len, c) == Go("CheckL1", c.ex, c.pos)
 FromL2_PastLen(m, len, c) == Done(None)
-FromL2Arm(m, len, c) ==
-  IF c.pos % L2BITS = 0
-  THEN IF c.pos < len THEN FromL2_BlockAligned(m, len, c) ELSE FromL2_BlockAlignedPastLen(m, len, c)
-  ELSE IF c.pos < len THEN FromL2_InsideBlock(m, len, c)
-  ELSE FromL2_PastLen(m, len, c)
 
-FcStep(m, len, c) ==
-  CASE c.st = "ScanWord" -> ScanWordArm(m, len, c)
-    [] c.st = "CheckL0" -> CheckL0Arm(m, len, c)
-    [] c.st = "CheckL1" -> CheckL1Arm(m, len, c)
-    [] c.st = "CheckL2" -> CheckL2Arm(m, len, c)
-    [] c.st = "FromL0" -> FromL0Arm(m, len, c)
-    [] c.st = "FromL1" -> FromL1Arm(m, len, c)
-    [] c.st = "FromL2" -> FromL2Arm(m, len, c)
+\* ---- which arm the `match state` takes in configuration c (the guards of the code) ----
+ScanWordSel(m, len, c) ==
+  IF c.pos >= len THEN "ScanWord_PastLen"
+  ELSE LET widx == c.pos \div W
+       IN IF FindCloseInWordFast(Word(m, widx), c.pos % W, c.ex, ValidBits(len, widx)) >= 0
+          THEN "ScanWord_Found" ELSE "ScanWord_NextWord"
+
+CheckL0Sel(m, len, c) ==
+  LET widx == c.pos \div W
+  IN IF widx >= NumL0(m, len) THEN "CheckL0_PastIndex"
+     ELSE IF c.ex + ML0(m, len, widx)[1] <= 0 THEN "CheckL0_Descend"
+     ELSE "CheckL0_SkipWord"
+
+CheckL1Sel(m, len, c) ==
+  LET i1 == c.pos \div L1BITS
+  IN IF i1 >= NumL1(m, len) THEN "CheckL1_PastIndex"
+     ELSE IF c.ex + ML1(m, len, i1)[1] <= 0 THEN "CheckL1_Descend"
+     ELSE IF c.pos < len
+          THEN IF IIsClose(m, len, c.pos) /\ c.ex <= 1 THEN "CheckL1_CloseHere" ELSE "CheckL1_SkipBlock"
+     ELSE "CheckL1_PastLen"
+
+CheckL2Sel(m, len, c) ==
+  LET i2 == c.pos \div L2BITS
+  IN IF i2 >= NumL2(m, len) THEN "CheckL2_PastIndex"
+     ELSE IF c.ex + ML2(m, len, i2)[1] <= 0 THEN "CheckL2_Descend"
+     ELSE IF c.pos < len
+          THEN IF IIsClose(m, len, c.pos) /\ c.ex <= 1 THEN "CheckL2_CloseHere" ELSE "CheckL2_SkipBlock"
+     ELSE "CheckL2_PastLen"
+
+FromL0Sel(m, len, c) ==
+  IF c.pos % W = 0 THEN "FromL0_WordAligned"
+  ELSE IF c.pos < len THEN "FromL0_InsideWord"
+  ELSE "FromL0_PastLen"
+
+FromL1Sel(m, len, c) ==
+  IF c.pos % L1BITS = 0
+  THEN IF c.pos < len THEN "FromL1_BlockAligned" ELSE "FromL1_BlockAlignedPastLen"
+  ELSE IF c.pos < len THEN "FromL1_InsideBlock"
+  ELSE "FromL1_PastLen"
+
+FromL2Sel(m, len, c) ==
+  IF c.pos % L2BITS = 0
+  THEN IF c.pos < len THEN "FromL2_BlockAligned" ELSE "FromL2_BlockAlignedPastLen"
+  ELSE IF c.pos < len THEN "FromL2_InsideBlock"
+  ELSE "FromL2_PastLen"
+
+FcArm(m, len, c) ==
+  CASE c.st = "ScanWord" -> ScanWordSel(m, len, c)
+    [] c.st = "CheckL0" -> CheckL0Sel(m, len, c)
+    [] c.st = "CheckL1" -> CheckL1Sel(m, len, c)
+    [] c.st = "CheckL2" -> CheckL2Sel(m, len, c)
+    [] c.st = "FromL0" -> FromL0Sel(m, len, c)
+    [] c.st = "FromL1" -> FromL1Sel(m, len, c)
+    [] c.st = "FromL2" -> FromL2Sel(m, len, c)
+
+FcApply(m, len, c, arm) ==
+  CASE arm = "ScanWord_PastLen" -> ScanWord_PastLen(m, len, c)
+    [] arm = "ScanWord_Found" -> ScanWord_Found(m, len, c)
+    [] arm = "ScanWord_NextWord" -> ScanWord_NextWord(m, len, c)
+    [] arm = "CheckL0_PastIndex" -> CheckL0_PastIndex(m, len, c)
+    [] arm = "CheckL0_Descend" -> CheckL0_Descend(m, len, c)
+    [] arm = "CheckL0_SkipWord" -> CheckL0_SkipWord(m, len, c)
+    [] arm = "CheckL1_PastIndex" -> CheckL1_PastIndex(m, len, c)
+    [] arm = "CheckL1_Descend" -> CheckL1_Descend(m, len, c)
+    [] arm = "CheckL1_CloseHere" -> CheckL1_CloseHere(m, len, c)
+    [] arm = "CheckL1_SkipBlock" -> CheckL1_SkipBlock(m, len, c)
+    [] arm = "CheckL1_PastLen" -> CheckL1_PastLen(m, len, c)
+    [] arm = "CheckL2_PastIndex" -> CheckL2_PastIndex(m, len, c)
+    [] arm = "CheckL2_Descend" -> CheckL2_Descend(m, len, c)
+    [] arm = "CheckL2_CloseHere" -> CheckL2_CloseHere(m, len, c)
+    [] arm = "CheckL2_SkipBlock" -> CheckL2_SkipBlock(m, len, c)
+    [] arm = "CheckL2_PastLen" -> CheckL2_PastLen(m, len, c)
+    [] arm = "FromL0_WordAligned" -> FromL0_WordAligned(m, len, c)
+    [] arm = "FromL0_InsideWord" -> FromL0_InsideWord(m, len, c)
+    [] arm = "FromL0_PastLen" -> FromL0_PastLen(m, len, c)
+    [] arm = "FromL1_BlockAligned" -> FromL1_BlockAligned(m, len, c)
+    [] arm = "FromL1_BlockAlignedPastLen" -> FromL1_BlockAlignedPastLen(m, len, c)
+    [] arm = "FromL1_InsideBlock" -> FromL1_InsideBlock(m, len, c)
+    [] arm = "FromL1_PastLen" -> FromL1_PastLen(m, len, c)
+    [] arm = "FromL2_BlockAligned" -> FromL2_BlockAligned(m, len, c)
+    [] arm = "FromL2_BlockAlignedPastLen" -> FromL2_BlockAlignedPastLen(m, len, c)
+    [] arm = "FromL2_InsideBlock" -> FromL2_InsideBlock(m, len, c)
+    [] arm = "FromL2_PastLen" -> FromL2_PastLen(m, len, c)
+
+FcStep(m, len, c) == FcApply(m, len, c, FcArm(m, len, c))
 
 \* termination measure: every step either finishes, moves pos forward, or moves to a state of
 \* strictly smaller rank at the same pos
